@@ -13,6 +13,8 @@ import subprocess
 import sys
 
 ROOT = os.path.dirname(os.path.dirname(os.path.abspath(__file__)))
+import tempfile
+EVDIR = tempfile.mkdtemp(prefix="seeded-evidence-")   # never the committed evidence directory
 EXTRA = {"S-C04-2": ["C07"]}     # a change meant for one property that only a sibling can see
 
 
@@ -38,7 +40,7 @@ def main():
                 os.remove(f)
             assert sh(f"git -C /repo apply {d}/patch.diff").returncode == 0, sid
             try:
-                r = sh(f"cd {ROOT} && VERIF_NO_BASELINE=1 ./check {p}", timeout=3000)
+                r = sh(f"cd {ROOT} && VERIF_NO_BASELINE=1 VERIF_EVIDENCE_DIR={EVDIR} ./check {p}", timeout=3000)
             finally:
                 sh("git -C /repo checkout -- .")
             lines = [l for l in r.stdout.splitlines() if l.startswith("VIOLATION")]
